@@ -995,8 +995,91 @@ def s18(repo, res):
     res.require(n >= 2, "S18: position validator call sites vanished")
 
 
+def s20_s22(repo, res):
+    """S20 rank before size: in the shape validator `len(inp)` / `inp.shape[..]` are only evaluated where the rank test `inp.ndim in dims` has
+        succeeded (nested under it, to its right in an `and`, or after `if <rank test fails>: raise`); evaluated unconditionally, a 0-d array
+        leaves the validator as a foreign TypeError / IndexError instead of the library's bad-input error.
+    S21 same-named scalar attributes agree: setters of one attribute name in different classes (`diameter` of Circle and Sphere, `current` of
+        Circle and Polyline) hand the same constraint keywords to `check_format_input_scalar` - a sibling that lost `forbid_negative` accepts
+        what the other rejects.
+    S22 exact guards: validators admit or reject by exact comparison; a tolerance test (`np.isclose` / `np.allclose`, default atol 1e-8) rejects
+        or admits valid inputs depending on the unit the numbers are written in."""
+    ic = repo.mod("magpylib._src.input_checks")
+    fn = ic.funcs.get("check_array_shape")
+    res.require(fn is not None, "anchor vanished: check_array_shape")
+    p = fn.args.args[0].arg
+    parents = {}
+    for x in ast.walk(fn):
+        for ch in ast.iter_child_nodes(x):
+            parents[id(ch)] = x
+
+    def is_rank(e):
+        return any(isinstance(x, ast.Attribute) and x.attr == "ndim" for x in ast.walk(e))
+    uses = [x for x in ast.walk(fn) if (isinstance(x, ast.Call) and getattr(x.func, "id", "") == "len" and x.args and ast.unparse(x.args[0]) == p)
+            or (isinstance(x, ast.Subscript) and isinstance(x.value, ast.Attribute) and x.value.attr == "shape" and ast.unparse(x.value.value) == p)]
+    res.require(uses, "anchor vanished: size tests in check_array_shape")
+    top_guards = [i for i, st in enumerate(fn.body) if isinstance(st, ast.If) and is_rank(st.test) and st.body and isinstance(st.body[-1], ast.Raise)]
+    for u in uses:
+        guarded, ch, q = False, u, parents.get(id(u))
+        stmt = None
+        while q is not None:
+            if isinstance(q, ast.If) and ch is not q.test and is_rank(q.test) and any(ch is b for b in q.body):
+                guarded = True
+            if isinstance(q, ast.BoolOp) and isinstance(q.op, ast.And):
+                idx = next(i for i, v in enumerate(q.values) if v is ch)
+                if any(is_rank(v) for v in q.values[:idx]):
+                    guarded = True
+            if isinstance(q, ast.IfExp) and ch is q.body and is_rank(q.test):
+                guarded = True
+            if isinstance(q, ast.stmt) and q in fn.body:
+                stmt = q
+            ch, q = q, parents.get(id(q))
+        if not guarded and stmt is not None and any(i < fn.body.index(stmt) for i in top_guards):
+            guarded = True
+        res.ob(f"S20:{norm(u)}", guarded, {"rule": "S20", "size_test": norm(u), "under_rank_test": guarded})
+        if not guarded:
+            res.add(Finding("S20", ic.rel, "check_array_shape", u, "the size of the input is read without the rank test having succeeded: a 0-d array raises a foreign "
+                            "TypeError / IndexError here instead of MagpylibBadUserInput", u.lineno))
+    # ---- S21
+    by_name = {}
+    for cl in repo.cls_by_key.values():
+        if not cl.mod.name.startswith("magpylib._src.obj_classes"):
+            continue
+        for name, sfn in cl.setters.items():
+            for c in ast.walk(sfn):
+                if isinstance(c, ast.Call) and call_name(c) == "check_format_input_scalar":
+                    kws = {k.arg: ast.unparse(k.value) for k in c.keywords if k.arg and k.arg not in ("sig_name", "sig_type")}
+                    by_name.setdefault(name, []).append((cl, c, kws))
+    n21 = 0
+    for name, items in sorted(by_name.items()):
+        if len(items) < 2:
+            continue
+        n21 += 1
+        ref = items[0][2]
+        for cl, c, kws in items[1:]:
+            ok = kws == ref
+            res.ob(f"S21:{name}:{cl.name}", ok, {"rule": "S21", "attribute": name, "classes": [i[0].name for i in items], "constraints": [i[2] for i in items]})
+            if not ok:
+                # report the poorer one
+                worse = (cl, c) if len(kws) <= len(ref) else (items[0][0], items[0][1])
+                res.add(Finding("S21", worse[0].mod.rel, f"{worse[0].name}.{name} (setter)", worse[1],
+                                f"`{name}` is validated with {kws if worse[0] is cl else ref} here but with {ref if worse[0] is cl else kws} in {items[0][0].name if worse[0] is cl else cl.name}: "
+                                "the same attribute accepts in one class what it rejects in the other", worse[1].lineno))
+    res.require(n21 >= 1, "S21: no scalar attribute shared by two classes found (diameter: Circle/Sphere confirmed by hand)")
+    # ---- S22
+    n22 = 0
+    for fname, f in ic.funcs.items():
+        for c in ast.walk(f):
+            if isinstance(c, ast.Call) and getattr(c.func, "attr", getattr(c.func, "id", "")) in ("isclose", "allclose"):
+                n22 += 1
+                res.ob(f"S22:{fname}:{norm(c)}", False, {"rule": "S22", "validator": fname, "test": norm(c)})
+                res.add(Finding("S22", ic.rel, fname, c, "an input guard decided with a tolerance (default atol=1e-8 is an absolute number): valid inputs whose numbers are small "
+                                "in the chosen unit are rejected (or invalid ones admitted)", c.lineno))
+    res.ob("S22:validators compare exactly", n22 == 0, {"rule": "S22", "tolerance_tests_in_input_checks": n22})
+
+
 def run(repo, res, tier):
-    res.rules = ["S1 validate-before-store", "S2 independent copy", "S3 documented shape vs configuration", "S4 constraints consulted on accepting paths",
+    res.rules = ["S20 rank test before size tests", "S21 same-named scalar attributes agree", "S22 exact input guards", "S1 validate-before-store", "S2 independent copy", "S3 documented shape vs configuration", "S4 constraints consulted on accepting paths",
                  "S5 None-flow", "S6 constructor = setter", "S8 relational constraints", "S9 rank/type gates",
                  "S10 a membership-validated setter stores the value it tested",
                  "S11 validated value stored verbatim", "S12 total exception translation", "S13 field_func probe adequacy", "S14 scalar gates admit every real number type",
@@ -1014,6 +1097,7 @@ def run(repo, res, tier):
     s14_s16(repo, res)
     s17(repo, res)
     s18(repo, res)
+    s20_s22(repo, res)
     import rules_domain
     n10 = rules_domain.checked_is_stored(repo, res, "S10")
     res.require(n10 >= 12, f"S10: only {n10} membership-validated setters found (16 confirmed by hand)")
